@@ -524,9 +524,11 @@ def check_tree(roots):
 def snapshot(el):
     """encoding + identity listing of the real children, recursively (C12 observation)"""
     def ids(e):
+        # identity, and for fields / components / subcomponents their datatype (a refused datatype change must not leave it half done)
         if e.__class__.__name__ == 'SubComponent':
-            return (id(e),)
-        return (id(e), tuple(ids(c) for c in e.children.list))
+            return (id(e), e.datatype)
+        dt = e.datatype if e.__class__.__name__ in ('Field', 'Component') else None
+        return (id(e), dt, tuple(ids(c) for c in e.children.list))
     try:
         enc = el.to_er7()
     except Exception as ex:
